@@ -15,7 +15,7 @@ RULE = ("all templates with up to 4 items over {atom, sub-list, unquote, splice,
         "unquote or splice")
 ASSUMPTIONS = []
 
-ITEMS = [",@l4", ",d1", ",(car l4)", "(w ,@l4)", "a", "1", '"s"', "(b c)", ",(tick 1)", ",x", ",@l0", ",@l1", ",@l3", "',x", "(d ,x)", "(e ,@l3 f)", ",@(progn (tick 2) l3)", "`(n ,x)", ",(list x x)", "()",
+ITEMS = ["(twice ,x)", "(twice a)", "'(twice ,x)", ",@l4", ",d1", ",(car l4)", "(w ,@l4)", "a", "1", '"s"', "(b c)", ",(tick 1)", ",x", ",@l0", ",@l1", ",@l3", "',x", "(d ,x)", "(e ,@l3 f)", ",@(progn (tick 2) l3)", "`(n ,x)", ",(list x x)", "()",
          "(b . ,x)", "(b ',x)", "(c '(d ,@l3))", "(g (h . ,l3))", "(k `(m ,x))", "((n) . ,x)", "(lit 1 2)", "(o (p ',x) q)", "(r . ,(tick 3))", "#',x", "#'(lambda (q) ,x)", "(mapcar #',x ',l3)", "#'(f ,@l3)", "'#',x"]
 
 def construction(items, tail):
@@ -34,6 +34,9 @@ def construction(items, tail):
         elif it == "((n) . ,x)": parts.append("(list (cons '(n) x))")
         elif it.startswith("#'") or it.startswith("'#'") or "#'," in it: return None
         elif it in ("(b ',x)", "(c '(d ,@l3))", "(k `(m ,x))", "(o (p ',x) q)", "(r . ,(tick 3))"): return None
+        elif it == "(twice ,x)": parts.append("(list (list 'twice x))")
+        elif it == "(twice a)": parts.append("'((twice a))")
+        elif it == "'(twice ,x)": return None
         elif it == ",@l4": parts.append("l4")
         elif it == ",d1": parts.append("(list d1)")
         elif it == ",(car l4)": parts.append("(list (car l4))")
@@ -59,7 +62,7 @@ def generate(tier, seed):
         temps.append(([rng.choice(ITEMS) for _ in range(n)], rng.choice([None, None, ",x", ",l1"])))
     lines = []
     nt = set()
-    setup = "(setq x 'vx) (setq l0 nil) (setq l1 '(one)) (setq l3 '(p q r)) (setq li '(i . j)) (setq n 0) (setq l4 '((a ,(setq n (+ n 1))) `(b ,@l1) ',x ,@l3 (c . ,x))) (setq d1 ',(setq n (+ n 10)))"
+    setup = "(setq x 'vx) (setq l0 nil) (setq l1 '(one)) (setq l3 '(p q r)) (setq li '(i . j)) (setq n 0) (setq l4 '((a ,(setq n (+ n 1))) `(b ,@l1) ',x ,@l3 (c . ,x))) (setq d1 ',(setq n (+ n 10))) (defmacro twice (x) (list 'progn x x))"
     for items, tail in temps:
         txt = "(" + " ".join(items) + (" . " + tail if tail else "") + ")"
         if any("," in i for i in items) or (tail and "," in tail): nt.add(txt)
